@@ -43,6 +43,7 @@ def _starts(cases):
 def _report(chk, s, behs, cases, layer, prefix):
     start = _starts(cases)
     seen = set()
+    count = {}
     # shortest histories first: they come from the all-paths / tour sets and do not depend on the seed
     for v in sorted(s["viol"], key=lambda v: (v["line"] - start[v["case"]], v["line"])):
         if v["case"] in seen:
@@ -50,10 +51,14 @@ def _report(chk, s, behs, cases, layer, prefix):
         seen.add(v["case"])
         b = behs[int(v["case"][len(prefix):]) - 1]
         upto = b["steps"][:max(1, v["line"] - start[v["case"]])]
+        # at most two per predicate and kind of caller id involved (plain / empty / duplicate)
+        cids = {st.get("c", "fresh")[:3] for st in upto if st["a"] == "Send"}
+        kind = (v["prop"], "dup" if "dup" in cids else "emp" if "emp" in cids else "")
+        if count.get(kind, 0) >= 2:
+            continue
+        count[kind] = count.get(kind, 0) + 1
         sig = f"C07:{layer}:{v['prop']}:" + ",".join(_step(st) for st in upto)
         chk.violation(sig, f"{v['prop']} fails at step {v['e']} of behaviour {sig}", [b] + cases[v["case"]])
-        if sum(1 for x in chk.violations if f":{layer}:{v['prop']}:" in x["sig"]) >= 3:
-            seen.update(x["case"] for x in s["viol"] if x["prop"] == v["prop"])     # at most three per predicate
 
 
 def _aborts(chk, s, behs, cases, what):
@@ -245,7 +250,7 @@ def run(chk, replay=None):
         "replies from the own bare JID / server domain to a request addressed elsewhere, and from the own full JID / another own "
         "resource / the server domain to a request without addressee, may be treated either way",
         "the server resumes only the session that ended last",
-        "request ids are not reused within an execution",
+        "the id of a request that has completed is not reused within an execution (ids of pending requests and empty ids are)",
         "a task obtained from sendGenericIq (chained with the client as context) is abandoned, not completed, when the client "
         "object is destroyed (C13: no continuation after its context died); raw sendIq tasks are cancelled",
         "manager layer: an API is settled when the scripted server holds no unanswered request of the call and the stub "
